@@ -33,7 +33,7 @@ LEVEL_TEXT = ("Theorems (Coq, over the reals, for every angle and every non-zero
               "arguments, angles a period apart, 2-D / 3-D / default-axis entry points mixed, the same axis as one live object / as equal objects / negated / rescaled, interleaved with spherical-coordinate and Angle calls), "
               "each answer compared bit for bit with the answer of a fresh process to the same call - and by "
               "the S4 predicates on the library's output (orthogonality, determinant, fixed axis, Rodrigues image, composition, (R v) R = v, R(alpha) u(phi) = u(phi+alpha), plain formula, norm (also by the library's Norm()), "
-              "polar cosine and sine, the library's Angle, finite-difference handedness (ev x u(phi)).(u(phi+h)-u(phi)) = r^2 sin^2(theta) sin(h)) with a-priori rounding slack 64 eps, "
+              "polar cosine and sine - for radii of every magnitude, subnormal .. 1e307, also aimed at r / aux and r * aux near the overflow / underflow thresholds for axes tilted slightly from +-z, each clause evaluated on the scale of r -, the library's Angle, finite-difference handedness (ev x u(phi)).(u(phi+h)-u(phi)) = r^2 sin^2(theta) sin(h)) with a-priori rounding slack 64 eps, "
               "evaluated against the value the reference semantics of the history gives the object.")
 LEVEL_NOTE = ("Coq 8.16.1 kernel, theorems over R with the standard library's sin, cos, sqrt, acos and Coquelicot's is_derive (axioms of the real numbers as printed by Print Assumptions); "
               "hand-written model tied by differential correspondence (extraction with ExtrOcamlBasic only); std::hypot is a function argument of the model, instantiated with "
